@@ -772,16 +772,17 @@ class C16(Spec):
     pid = "C16"
     level = "proof"
     design_ref = "DESIGN.md section 8 C16"
-    trusted = ["attr.evolve returns a new object and leaves its argument unchanged; pyrsistent pmap.update / .remove are persistent (assumed contracts of the dependencies)",
+    trusted = ["attr.evolve returns a new object holding the given map and leaves its argument unchanged; pyrsistent pmap values are persistent: update(d) is the overlay of d, remove(k) raises KeyError for an absent key and otherwise drops exactly k (assumed contracts of the dependencies, contracts/tasks_types.py)",
                "class creation inside create() is modelled by its four behaviour parameters (keyword table copy, type checker, id_of closure and ID_OF, metaschema copy); the deprecation metaclass / DEFAULT_TYPES property is not modelled",
                "meta-lemma (paper): iter_errors' contract is parametric in exactly those four parameters, so equal parameters give equal behaviour and an override changes only the dispatch case of the overridden keyword"]
     assumptions = ["frame / ownership obligations are syntactic (pyvc/frames.py) and conservative"]
-    explanation = "Write frames: no derivation operation mutates a pre-existing checker, class or validator (only fresh objects, the object under construction, the two registries in validates, the receiver's own registry in checks). Ownership: create stores copies, FormatChecker instances copy the class registry on every construction path, the draft checkers are separate instances, TypeChecker is frozen over a persistent map. Hand-over: extend passes its parent's table copy, type checker, id_of and metaschema to create; the class's methods use the closure id_of; check_schema uses the class itself."
+    explanation = "TypeChecker: is_type(x, t) is UndefinedTypeCheck iff t is not in the checker's map and otherwise what the mapped function says; redefine / redefine_many return a new checker whose map is the receiver's overlaid with the definitions; remove returns a new checker without exactly the listed names (loop invariant, closed form by an induction lemma) and raises UndefinedTypeCheck iff a name is absent when its turn comes. Write frames: no derivation operation mutates a pre-existing checker, class or validator (only fresh objects, the object under construction, the two registries in validates, the receiver's own registry in checks). Ownership: create stores copies, FormatChecker instances copy the class registry on every construction path, the draft checkers are separate instances, TypeChecker is frozen over a persistent map. Hand-over: extend passes its parent's table copy, type checker, id_of and metaschema to create; the class's methods use the closure id_of; check_schema uses the class itself."
 
     def tasks(self, root, tier):
         from contracts import tasks_registry
+        from contracts import tasks_types
         return [t for t in tasks_registry.registry_tasks(root, _tmo(tier)) if t.which == "validates"] + \
-            tasks_core.core_tasks(root, _tmo(tier), drafts_=(7,), which=("is_type",))
+            tasks_core.core_tasks(root, _tmo(tier), drafts_=(7,), which=("is_type",)) + tasks_types.type_checker_tasks(root, _tmo(tier))
 
     def select(self, ob, r):
         return True
